@@ -1389,4 +1389,204 @@ theorem wrapLine_comment (W : Nat) (hW : 7 < W) (L init : Str) (hcl : Clean L) (
         simp only [obsLines, List.map_cons, List.flatten_cons, hf0.2.2.1, hf0.2.2.2.1, hf0.2.2.2.2, (hsum bs).1,
           (hsum bs).2.1, (hsum bs).2.2, List.nil_append, hLf.2.2.1, hLf.2.2.2.1, hLf.2.2.2.2, hr0, sq_append]
 
+/-! ## 8. the whole card -/
+
+/-- the physical source lines the round trip is proved for -/
+structure LineOK (W : Nat) (L : Str) : Prop where
+  clean : Clean L
+  nonblank : stripNonEmpty L = true
+  ok : if isCommentCard L = true then CommentOK W L else DataOK W L
+
+/-- what `wrap_string_for_mcnp(…, is_first_line=True)` returns for these source lines -/
+def wrapCard (W : Nat) (ls : List Str) : List Str := ls.flatMap (fun l => wrapLine l W [] (blanks 5))
+
+theorem wrapStringWith_eq (s : Str) (W : Nat) :
+    (wrapStringWith s W true).1 = wrapCard W ((splitLines s).filter stripNonEmpty) := by
+  unfold wrapStringWith wrapCard
+  have h5 : blanks Gen.blankSpaceContinue = blanks 5 := rfl
+  simp only [if_true, h5]
+  have : ∀ (ls : List Str) (acc : List Str × Nat),
+      (ls.foldl (fun (acc : List Str × Nat) line =>
+        if stripNonEmpty line = true then
+          (acc.1 ++ wrapLine line W [] (blanks 5),
+            if (wrapLine line W [] (blanks 5)).length > 1 then acc.2 + 1 else acc.2)
+        else acc) acc).1 = acc.1 ++ (ls.filter stripNonEmpty).flatMap (fun l => wrapLine l W [] (blanks 5)) := by
+    intro ls
+    induction ls with
+    | nil => intro acc; simp
+    | cons l t ih =>
+      intro acc
+      simp only [List.foldl_cons]
+      rw [ih]
+      by_cases hl : stripNonEmpty l = true
+      · simp [hl, List.filter_cons, List.append_assoc]
+      · simp [hl, List.filter_cons]
+  simpa using this (splitLines s) ([], 0)
+
+theorem LineOK.noAmpL {W : Nat} {L : Str} (h : LineOK W L) : NoAmpL L := by
+  intro hc
+  have := h.ok
+  simp only [hc, Bool.false_eq_true, if_false] at this
+  rw [splitDollar_eq]
+  exact this.amp
+
+/-- a line that may follow the first line of a card -/
+def GoodCont (x : Str) : Prop :=
+  isBlankLine x = false ∧ (isCommentCard x = true ∨ (isIndented x = true ∧ '&' ∉ (splitDollar x).1))
+
+theorem ContLine.good {x : Str} (h : ContLine x) : GoodCont x := ⟨h.nonblank, Or.inr ⟨h.indented, h.noamp⟩⟩
+
+theorem contOK_of_good : ∀ (ls : List Str), (∀ x ∈ ls, GoodCont x) → ContOK false ls
+  | [], _ => by simp [ContOK]
+  | l :: t, h => by
+    have ih := contOK_of_good t (fun x hx => h x (List.mem_cons_of_mem _ hx))
+    obtain ⟨hnb, hor⟩ := h l List.mem_cons_self
+    simp only [ContOK]
+    refine ⟨hnb, ?_⟩
+    by_cases hc : isCommentCard l = true
+    · simp [hc, ih]
+    · rcases hor with h1 | ⟨h1, h2⟩
+      · exact absurd h1 hc
+      · simp only [hc, Bool.false_eq_true, if_false]
+        rw [startCard_of_noAmp l h2]
+        exact ⟨Or.inr h1, ih⟩
+
+theorem good_of_contOK : ∀ (ls : List Str), ContOK false ls → (∀ l ∈ ls, NoAmpL l) →
+    ∀ l ∈ ls, isBlankLine l = false ∧ (isCommentCard l = true ∨ isIndented l = true)
+  | [], _, _, l, hl => by simp at hl
+  | a :: t, h, hn, l, hl => by
+    simp only [ContOK] at h
+    obtain ⟨hnb, hrest⟩ := h
+    by_cases hc : isCommentCard a = true
+    · simp only [hc, if_true] at hrest
+      simp only [List.mem_cons] at hl
+      rcases hl with rfl | hl
+      · exact ⟨hnb, Or.inl hc⟩
+      · exact good_of_contOK t hrest (fun x hx => hn x (List.mem_cons_of_mem _ hx)) l hl
+    · simp only [hc, Bool.false_eq_true, if_false] at hrest
+      have hc' : isCommentCard a = false := by simpa using hc
+      have hna := hn a List.mem_cons_self hc'
+      rw [startCard_of_noAmp a hna] at hrest
+      simp only [List.mem_cons] at hl
+      rcases hl with rfl | hl
+      · rcases hrest.1 with h | h
+        · cases h
+        · exact ⟨hnb, Or.inr h⟩
+      · exact good_of_contOK t hrest.2 (fun x hx => hn x (List.mem_cons_of_mem _ hx)) l hl
+
+theorem obsLines_append (a b : List Str) :
+    obsLines (a ++ b) = ((obsLines a).1 ++ (obsLines b).1, (obsLines a).2.1 ++ (obsLines b).2.1,
+      (obsLines a).2.2 ++ (obsLines b).2.2) := by
+  simp [obsLines]
+
+/-- what the wrapped lines of one source line contribute is what the source line contributes -/
+theorem wrapLine_obs (W : Nat) (hW : 7 < W) (L : Str) (h : LineOK W L) :
+    obsLines (wrapLine L W [] (blanks 5)) = (cw L, cdl L, ccm L) := by
+  by_cases hc : isCommentCard L = true
+  · have hok := h.ok; simp only [hc, if_true] at hok
+    exact (wrapLine_comment W hW L [] h.clean hc hok).2.2
+  · have hc' : isCommentCard L = false := by simpa using hc
+    have hok := h.ok; simp only [hc', Bool.false_eq_true, if_false] at hok
+    obtain ⟨o, os, he, _, _, _, hobs⟩ := wrapLine_data W hW L h.clean h.nonblank hc' hok
+    rw [he]; exact hobs
+
+theorem wrapCard_obs (W : Nat) (hW : 7 < W) : ∀ (ls : List Str), (∀ l ∈ ls, LineOK W l) →
+    obsLines (wrapCard W ls) = obsLines ls
+  | [], _ => rfl
+  | l :: t, h => by
+    have ih := wrapCard_obs W hW t (fun x hx => h x (List.mem_cons_of_mem _ hx))
+    have h1 := wrapLine_obs W hW l (h l List.mem_cons_self)
+    have : wrapCard W (l :: t) = wrapLine l W [] (blanks 5) ++ wrapCard W t := by simp [wrapCard]
+    rw [this, obsLines_append, ih, h1]
+    simp [obsLines]
+
+/-- every line wrapped from a continuation line of the source is a good continuation line -/
+theorem wrapLine_good (W : Nat) (hW : 7 < W) (L : Str) (h : LineOK W L)
+    (hsrc : isCommentCard L = true ∨ isIndented L = true) : ∀ x ∈ wrapLine L W [] (blanks 5), GoodCont x := by
+  intro x hx
+  by_cases hc : isCommentCard L = true
+  · have hok := h.ok; simp only [hc, if_true] at hok
+    have := (wrapLine_comment W hW L [] h.clean hc hok).2.1 x hx
+    exact ⟨this.1, Or.inl this.2⟩
+  · have hc' : isCommentCard L = false := by simpa using hc
+    have hi : isIndented L = true := by
+      rcases hsrc with h1 | h1
+      · exact absurd h1 hc
+      · exact h1
+    have hok := h.ok; simp only [hc', Bool.false_eq_true, if_false] at hok
+    obtain ⟨o, os, he, hio, hdo, hos, _⟩ := wrapLine_data W hW L h.clean h.nonblank hc' hok
+    rw [he] at hx
+    simp only [List.mem_cons] at hx
+    rcases hx with rfl | hx
+    · exact ⟨hdo.nonblank, Or.inr ⟨by rw [hio, hi], hdo.noamp⟩⟩
+    · exact (hos x hx).good
+
+theorem GoodCont.noAmpL {x : Str} (h : GoodCont x) : NoAmpL x := by
+  intro hc
+  rcases h.2 with h1 | h1
+  · rw [h1] at hc; cases hc
+  · exact h1.2
+
+/-- **C10_roundtrip_card** — a well-formed card (`CardOK` of C01Blocks) whose lines are in the class `LineOK`,
+    wrapped line by line as `wrap_string_for_mcnp` does: the result is again a well-formed card — its first line is
+    not blank, not a comment card and not pushed into the continuation columns, every further line is a comment card
+    or an indented data line, none is blank, the last does not end in `&` — and the reader of `Spec/File.lean` reads
+    in it the same words, the same `$` comment text and the same comment-card text as in the unwrapped card. -/
+theorem C10_roundtrip_card (W : Nat) (hW : 7 < W) (src : WCard) (hok : CardOK src)
+    (hcls : ∀ l ∈ src.lines, LineOK W l) :
+    ∃ o os, wrapCard W src.lines = o :: os ∧ CardOK ⟨o, os⟩ ∧
+      obsCard (readCard ⟨o, os⟩) = obsCard (readCard src) := by
+  obtain ⟨f, rest⟩ := src
+  obtain ⟨hfnb, hfnc, hfni, hcont⟩ := hok
+  simp only at hfnb hfnc hfni hcont
+  have hlf : LineOK W f := hcls f (by simp [FileWrite.WCard.lines])
+  have hlr : ∀ l ∈ rest, LineOK W l := fun l hl => hcls l (by simp [FileWrite.WCard.lines, hl])
+  have hnaf := hlf.noAmpL hfnc
+  rw [startCard_of_noAmp f hnaf] at hcont
+  simp only at hcont
+  have hgood := good_of_contOK rest hcont (fun l hl => (hlr l hl).noAmpL)
+  have hokf := hlf.ok; simp only [hfnc, Bool.false_eq_true, if_false] at hokf
+  obtain ⟨o, more, he, hio, hdo, hmore, _⟩ := wrapLine_data W hW f hlf.clean hlf.nonblank hfnc hokf
+  have hout : wrapCard W (FileWrite.WCard.lines ⟨f, rest⟩) = o :: (more ++ wrapCard W rest) := by
+    simp only [FileWrite.WCard.lines, wrapCard, List.flatMap_cons, he, List.cons_append]
+  have hrestgood : ∀ x ∈ more ++ wrapCard W rest, GoodCont x := by
+    intro x hx
+    rcases List.mem_append.mp hx with hx | hx
+    · exact (hmore x hx).good
+    · simp only [wrapCard, List.mem_flatMap] at hx
+      obtain ⟨l, hl, hxl⟩ := hx
+      exact wrapLine_good W hW l (hlr l hl) (hgood l hl).2 x hxl
+  refine ⟨o, more ++ wrapCard W rest, hout, ?_, ?_⟩
+  · refine ⟨hdo.nonblank, hdo.notcomment, by rw [hio]; exact hfni, ?_⟩
+    simp only
+    rw [startCard_of_noAmp o hdo.noamp]
+    exact contOK_of_good _ hrestgood
+  · rw [obs_readCard ⟨o, more ++ wrapCard W rest⟩ hdo.notcomment, obs_readCard ⟨f, rest⟩ hfnc]
+    · show obsLines (o :: (more ++ wrapCard W rest)) = _
+      rw [← hout]; exact wrapCard_obs W hW _ hcls
+    · intro l hl; exact (hcls l hl).noAmpL
+    · intro l hl
+      simp only [FileWrite.WCard.lines, List.mem_cons] at hl
+      rcases hl with rfl | hl
+      · exact fun _ => hdo.noamp
+      · exact (hrestgood l hl).noAmpL
+
+/-- **C10_roundtrip** (partial: the class `LineOK` excludes the recorded finding C10-F1, a word longer than
+    limit-5 columns, together with `&` inside data, `c$ …`, tabs/control white space and un-indented `$`-only
+    lines) — for every regime of the code's `LINE_LENGTH` table and every string `s` handed to
+    `wrap_string_for_mcnp(s, v, True)` whose non-blank lines form a well-formed card of that class: the lines
+    returned form a well-formed card (`CardOK`, the hypothesis of `C01_blocks`) in which MCNP's rules
+    (`Spec/File.lean`: `readCard`, `words`) read the same words and the same comment text. -/
+theorem C10_roundtrip : ∀ e ∈ Gen.lineLength, ∀ (s : Str) (src : WCard),
+    (splitLines s).filter stripNonEmpty = src.lines → CardOK src → (∀ l ∈ src.lines, LineOK e.2 l) →
+    ∃ o os, (wrapStringWith s e.2 true).1 = o :: os ∧ CardOK ⟨o, os⟩ ∧
+      obsCard (readCard ⟨o, os⟩) = obsCard (readCard src) := by
+  intro e he s src hs hok hcls
+  have hW : 7 < e.2 := by
+    have := C10_tables.1 e he
+    have h5 : Gen.blankSpaceContinue = 5 := rfl
+    omega
+  rw [wrapStringWith_eq, hs]
+  exact C10_roundtrip_card e.2 hW src hok hcls
+
 end MontePyVerif.C10
